@@ -1,6 +1,7 @@
 package main
 
 import (
+	"encoding/binary"
 	"fmt"
 	"unicode/utf8"
 
@@ -68,5 +69,52 @@ func probeGetReference(rep *Report) {
 	if res != "" {
 		rep.Violation("get-keeps-item-reference", false, map[string]interface{}{"observed": res, "expected": "every count zero once the store is closed",
 			"history": []string{"SetItem(k)", "Get(k)", "GetAny(k)", "Close()"}})
+	}
+}
+
+// probeValueIsRootRecord: a committed value that is itself a complete, self-consistent root record for the file
+// position it lands at makes FlushRevert stop at it (C08): the store comes back empty instead of in the state of
+// the previous Flush.  (C03 excludes such values explicitly; C08's statement does not.)  Witness found by proof:
+// DStoreRefine.h4_needed.
+func probeValueIsRootRecord(rep *Report) {
+	w := &World{Timeout: 10e9}
+	res := w.guard(func() string {
+		mf := NewMemFile()
+		s, err := gkvlite.NewStore(mf)
+		if err != nil {
+			return "open: " + err.Error()
+		}
+		c := s.SetCollection("a", nil)
+		if err := s.Flush(); err != nil {
+			return "flush: " + err.Error()
+		}
+		pos := gkvlite.VerifStoreSize(s) + 16 + 1
+		v := []byte("0g1t2r0g1t2r")
+		v = binary.BigEndian.AppendUint32(v, 4)
+		v = binary.BigEndian.AppendUint32(v, 46)
+		v = append(v, "{}"...)
+		v = binary.BigEndian.AppendUint64(v, uint64(pos))
+		v = binary.BigEndian.AppendUint32(v, 46)
+		v = append(v, "3e4a5p3e4a5p"...)
+		if err := c.SetItem(&gkvlite.Item{Key: []byte("k"), Val: v, Priority: 1}); err != nil {
+			return "set: " + err.Error()
+		}
+		if err := s.Flush(); err != nil {
+			return "flush: " + err.Error()
+		}
+		if err := s.FlushRevert(); err != nil {
+			return "revert: " + err.Error()
+		}
+		names := s.GetCollectionNames()
+		if len(names) != 1 || names[0] != "a" {
+			return fmt.Sprintf("after FlushRevert the collections are %q; the previous Flush held [\"a\"] (empty)", names)
+		}
+		return ""
+	})
+	rep.Evaluations++
+	if res != "" {
+		rep.Violation("value-is-valid-root-record", false, map[string]interface{}{"observed": res,
+			"history":  []string{"SetCollection(a)", "Flush", "SetItem(a, k, <bytes of a root record with an empty map, offset = its own file position>)", "Flush", "FlushRevert", "GetCollectionNames"},
+			"expected": "the state of the first Flush: collection a, empty"})
 	}
 }
